@@ -1067,7 +1067,7 @@ RULES["R01.4"] += " | returned-as-computed: the same test for the four layer bac
 
 def run(ctx):
     from .common import returned_as_computed
-    ctx.guard("R01.4", "returned-as-computed", returned_as_computed, ctx, "R01.4", {"src/dense.rs", "src/convolution.rs", "src/deconvolution.rs", "src/maxpool.rs"}, lambda p_, l_: l_ == "backward" or (l_ == "forward" and "Maxpool" in p_), ("hadamard", "add_inplace", "dropout"), 5)
+    ctx.guard("R01.4", "returned-as-computed", returned_as_computed, ctx, "R01.4", {"src/dense.rs", "src/convolution.rs", "src/deconvolution.rs", "src/maxpool.rs"}, lambda p_, l_: any(w_ in l_ for w_ in ("backward", "gradient", "rotate", "rearrange")) or (l_ == "forward" and "Maxpool" in p_), ("hadamard", "add_inplace", "dropout"), 8)
     from .common import no_permuting_ops
     ctx.guard("R01.4", "entries-stay-in-place", no_permuting_ops, ctx, "R01.4", "layers-backward", {"src/dense.rs", "src/convolution.rs", "src/deconvolution.rs", "src/maxpool.rs"}, 6, None, lambda p_, l_: "backward" in l_ or "gradient" in l_ or l_ == "rotate")
     ctx.guard("R01.12", "linear-algebra", r12_linear_algebra, ctx)
